@@ -4,8 +4,7 @@ Piece-level model of the template lexer `liquid/lex.py` with the delimiters as a
 A template is a list of `Piece`s; `assemble d ps` writes it with the delimiter strings `d`
 (what "rewriting a template with different delimiters" means).  `matchesOf d ps` states what
 `compile_liquid_rules(d…).finditer(assemble d ps)` yields (one match per markup piece, one CONTENT
-match per text piece — two when the template ends in a newline, because `$` also matches before a
-final newline), with the group offsets `match.start("name")`, `match.start("expr")`,
+match per text piece), with the group offsets `match.start("name")`, `match.start("expr")`,
 `match.start("stmt")`, `match.end()` computed by arithmetic on the delimiter lengths;
 `tokenizeM` is a line-by-line translation of `_tokenize_template`.
 
@@ -74,7 +73,7 @@ structure Match where
   nameOff : Nat             -- `match.start("name")`
   body : List Char          -- group `expr` / `stmt` / `raw` / `doc` / `comment`
   bodyOff : Nat             -- `match.start(<that group>)`
-  rs : Bool                 -- group `rst` / `rss` / `rsc` / `rsr` (opening tag!) / `rsd` (closing tag)
+  rs : Bool                 -- group `rst` / `rss` / `rsc` / `rsr_e` / `rsd` (closing tags)
   rstrip : Bool             -- CONTENT: the look-ahead group `rstrip`
   deriving Repr, DecidableEq
 
@@ -91,13 +90,10 @@ def nextDash : List Piece → Bool
 def contentMatch (pos : Nat) (s : List Char) (rstrip : Bool) : Match :=
   { kind := .content, start := pos, whole := s, name := [], nameOff := pos, body := s, bodyOff := pos, rs := false, rstrip }
 
-/-- CONTENT matches of a text piece: the last text of a template that ends in `\n` (and is longer than
-that) is matched in two parts, because `$` matches before a final newline. -/
-def contentMatches (pos : Nat) (s : List Char) (last : Bool) (rstrip : Bool) : List Match :=
-  if s.isEmpty then []
-  else if last && s.length ≥ 2 && s.getLast? == some '\n' then
-    [contentMatch pos s.dropLast false, contentMatch (pos + s.dropLast.length) ['\n'] false]
-  else [contentMatch pos s rstrip]
+/-- CONTENT matches of a text piece: one match for a non-empty text (the look-ahead ends in `\Z`, so a
+final newline is not split off; an empty text is no match at all). -/
+def contentMatches (pos : Nat) (s : List Char) (rstrip : Bool) : List Match :=
+  if s.isEmpty then [] else [contentMatch pos s rstrip]
 
 def pieceMatch (d : Delims) (pos : Nat) (p : Piece) : Match :=
   match p with
@@ -110,10 +106,10 @@ def pieceMatch (d : Delims) (pos : Nat) (p : Piece) : Match :=
       nameOff := pos + (d.ts.length + ((dash lw).length + ws1.length)), body := e,
       bodyOff := pos + (d.ts.length + ((dash lw).length + (ws1.length + (name.length + ws2.length)))),
       rs := rw, rstrip := false }
-  | .raw lw1 a1 a2 rw1 body _ _ _ _ =>
+  | .raw lw1 a1 a2 rw1 body _ _ _ rw2 =>
     { kind := .raw, start := pos, whole := p.render d, name := [], nameOff := pos, body := body,
       bodyOff := pos + (d.ts.length + ((dash lw1).length + (a1.length + (3 + (a2.length + ((dash rw1).length + d.te.length)))))),
-      rs := rw1, rstrip := false }
+      rs := rw2, rstrip := false }
   | .doc lw1 a1 a2 rw1 body _ _ _ rw2 =>
     { kind := .doc, start := pos, whole := p.render d, name := [], nameOff := pos, body := body,
       bodyOff := pos + (d.ts.length + ((dash lw1).length + (a1.length + (3 + (a2.length + ((dash rw1).length + d.te.length)))))),
@@ -124,7 +120,7 @@ def pieceMatch (d : Delims) (pos : Nat) (p : Piece) : Match :=
 
 def matchesOf (d : Delims) (pos : Nat) : List Piece → List Match
   | [] => []
-  | .text s :: ps => contentMatches pos s ps.isEmpty (nextDash ps) ++ matchesOf d (pos + s.length) ps
+  | .text s :: ps => contentMatches pos s (nextDash ps) ++ matchesOf d (pos + s.length) ps
   | p :: ps => pieceMatch d pos p :: matchesOf d (pos + (p.render d).length) ps
 
 /-! ## `_tokenize_template` -/
